@@ -10,9 +10,10 @@ import ShVerif.Model.L1Heap
   `pushd`, `popd`, `set -o`/`shopt`, `alias`, `unalias`, function definition, `unset`, the
   `declare` family, function call scopes) over the L1 GoSlice heap.
 
-  `fx = false` is the code as it is today: `a+=s` on an indexed array writes `prev.List[0]` /
-  calls `SetIndexedElem(prev.List, …)` on the *uncloned* slice (vars.go:418/420).
-  `fx = true` is the suggested repair (props/C27.fixes/assignval-clone.diff): clone first.
+  `fx = true` is the code as it is: `assignVal` clones `prev.List`/`prev.Indexes` before `a+=s`
+  (commit db7f3b5).  `fx = false` is the PINNED old variant (`prev.List[0] += s` and
+  `SetIndexedElem(prev.List, …)` on the uncloned slice), kept for the `pinned_…` theorems and so
+  that the harness can still describe a tree in which the defect has come back.
 
   Not modelled: namerefs (`Resolve` is the identity), the special parameters of `lookupVar`
   (`@ * # ? - $ ! 0-9 RANDOM … DIRSTACK`), exit codes, output.
@@ -372,7 +373,7 @@ def appendIndexed (g : Grows) (h : Heap) (prev : Var) (s : Bytes) : Option (Heap
     | none => none
     | some r => some (r.1, { prev with list := r.2.1, indexes := r.2.2 })
 
-/-- `Runner.assignVal`.  `fx` selects the repaired variant that clones before `+=`. -/
+/-- `Runner.assignVal`.  `fx = true`: clone before `+=` (the code as it is); `fx = false`: pinned. -/
 def assignVal (fx : Bool) (g : Grows) (h : Heap) (prev : Var) (append : Bool) (rhs : Rhs)
     (vt : ValType) : Option (Heap × Var) :=
   match rhs with
@@ -838,7 +839,7 @@ def appendTarget (r : Runner) (h : Heap) : Op → Option Var
     if v == .local && !r.inFunc then none else some (lookupVar r h name)
   | _ => none
 
-/-- The exact extra hypothesis of `isolation_partial`: an operation `name+=word` never hits an
+/-- PINNED: the exact extra hypothesis of `pinned_isolation_partial`: an operation `name+=word` never hits an
     indexed array whose element storage existed before the subshell was created (`n` = heap
     sizes at that moment). -/
 def AppendSafe (n : Sizes) (r : Runner) (h : Heap) (op : Op) : Prop :=
